@@ -154,6 +154,10 @@ def main():
         jobs.append((len(jobs) + seed * 1000,) + p)
         if len(jobs) >= n:
             break
+    only = os.environ.get("MUT_ONLY")
+    if only:
+        keep = {int(x) for x in only.split(",")}
+        jobs = [j for j in jobs if j[0] in keep]
     print(f"pool {len(pool)} candidates, running {len(jobs)} mutants", flush=True)
     with concurrent.futures.ThreadPoolExecutor(workers) as ex, open(f"{OUT}/results.jsonl", "a") as rf:
         for r in ex.map(one, jobs):
